@@ -77,8 +77,10 @@ def interleave(rng, blocks):
 
 def grouped(blocks):
     """all blocks of a track written one after the other under ONE TR (tracks in order of first appearance): no track switch
-    between them - None when a block ends with an octave-once mark (a switch settles it, the next note would take it)"""
-    if any(b.rstrip().endswith(("`", '"')) for _, b in blocks):
+    between them - None when a block may leave an octave-once mark pending (a switch settles it, the next note would take it:
+    theorem C12_group_needs_no_pending_once).  Whether a mark is still pending at the end of a block depends on what follows it
+    inside the block (`Sub{r " q10}` leaves one pending), so any block that writes a mark at all is left out."""
+    if any(("`" in b or '"' in b) for _, b in blocks):
         return None
     per, order = {}, []
     for t, b in blocks:
